@@ -16,7 +16,7 @@ RULE = (
     "records with a channel multiplied by c in +-10^[-12,12]: XX->c^2 XX, XY->c XY, Gxx/Gxy likewise, coherence "
     "unchanged, Hxy scaled by c_y/c_x within the rounding budget; (c) relabelling fs->a*fs: a=2^k for full plans "
     "(f, r, ENBW *a; Gxx,Gyy,Gxy /a; coh, Hxy, L, K, D unchanged, rtol 1e-12) and arbitrary a>0 for single-bin "
-    "requests with explicit L (budget). Non-trivial: (a) non-integer bin; (b) |c| not in {0,1}; (c) a != 1."
+    "requests with explicit L (budget). The relabelled analysis is a new analyzer or a fresh analyzer whose public fs attribute was set to a*fs. Non-trivial: (a) non-integer bin; (b) |c| not in {0,1}; (c) a != 1."
 )
 ASSUMPTIONS = [
     "for detrend orders 1 and 2 the sinusoid must be 1.5 bins further from 0/Nyquist than the window main lobe: the "
